@@ -2,6 +2,11 @@
    D, E, F, G, R, C of ConnStatements.v; nested scripts of any length and depth. *)
 From PahoV Require Import Base.Prelude Link.Conn Link.ConnCheck Link.ConnInv Link.ConnStatements Link.C10Inv.
 
+Ltac gsimpl :=
+  cbn [cs sock regw outq ping incb proto nsock sched scr tr
+       emit set_cs set_sock set_regw set_outq set_ping set_incb set_proto set_nsock set_sched set_scr
+       push_front obs fst snd].
+
 Lemma nofail_tail o l : existsb is_ofail (o :: l) = false -> existsb is_ofail l = false.
 Proof. cbn. intros H. apply orb_false_iff in H. apply H. Qed.
 
@@ -18,10 +23,10 @@ Proof.
     cbn [snd scr set_scr q_open q_discopen q_close q_unregw q_regw];
     repeat (apply andb_true_iff; split); try assumption.
   - pose proof (pop_list_forall is_nil _ H eq_refl) as [_ X]. rewrite E in X. exact X.
-  - pose proof (pop_list_forall (forallb is_pubsub) _ H1 eq_refl) as [_ X]. rewrite E in X. exact X.
-  - pose proof (pop_list_noreconn _ H3) as [_ X]. rewrite E in X. exact X.
   - pose proof (pop_list_forall (forallb is_pubsub) _ H2 eq_refl) as [_ X]. rewrite E in X. exact X.
   - pose proof (pop_list_noreconn _ H0) as [_ X]. rewrite E in X. exact X.
+  - pose proof (pop_list_forall (forallb is_pubsub) _ H1 eq_refl) as [_ X]. rewrite E in X. exact X.
+  - pose proof (pop_list_noreconn _ H3) as [_ X]. rewrite E in X. exact X.
 Qed.
 
 Lemma scr_ok_regw q : scr_ok q = true -> queue_noreconn (q_regw q) = true.
@@ -126,7 +131,7 @@ Proof.
   pose proof (scr_ok_pop si (obs (WCb si) (emit ev s)) (proj1 (proj2 HP1))) as HS.
   destruct (pop_script si (obs (WCb si) (emit ev s))) as [sc s2]. cbn [fst snd] in *.
   destruct F as (Fcs & Fsock & Fregw & Foutq & Fping & Fincb & Fproto & Fnsock & Fsched & Ftr).
-  ssimpl.
+  gsimpl.
   assert (HP2 : Pre true s2).
   { destruct HP1 as (HV & _ & HF). split; [|split; [exact HS|]].
     - rewrite (KS_frame _ _ _ _ Ftr). eapply V_frame; [exact Fsock|exact Fcs|exact Foutq|exact HV].
@@ -156,9 +161,10 @@ Proof.
   pose proof (scr_ok_pop_open (obs (WCb SiOpen) (emit ev s)) (proj1 (proj2 HP1))) as Hnil.
   destruct (pop_script SiOpen (obs (WCb SiOpen) (emit ev s))) as [sc s2]. cbn [fst snd] in *. subst sc.
   destruct F as (Fcs & Fsock & Fregw & Foutq & Fping & Fincb & Fproto & Fnsock & Fsched & Ftr).
-  ssimpl. repeat split; try assumption.
-  - destruct HP1 as (HV & _ & HF). rewrite (KS_frame _ _ _ _ Ftr). eapply V_frame; [exact Fsock|exact Fcs|exact Foutq|exact HV].
-  - destruct HP1 as (_ & _ & HF). unfold nofail in *. rewrite Fsched. exact HF.
+  gsimpl. split; [|repeat split; assumption].
+  destruct HP1 as (HV & _ & HF). split; [|split; [exact HS|]].
+  - rewrite (KS_frame _ _ _ _ Ftr). eapply V_frame; [exact Fsock|exact Fcs|exact Foutq|exact HV].
+  - unfold nofail in *. rewrite Fsched. exact HF.
 Qed.
 
 (* a callback invocation while no socket is held (on_socket_close / on_socket_unregister_write in
@@ -192,12 +198,29 @@ Proof.
   set (s3 := set_incb (false || incb s2) s2).
   assert (Hs3 : sock s3 = None) by (unfold s3; ssimpl; rewrite Fsock; exact Hs).
   destruct (Ht (a :: sc) s3 Hps Hs3) as ([] & Hcs & evs & Htr & Hf).
+  assert (EK : KS10 (nested (a :: sc) s3) = KS10 s2).
+  { rewrite (KS_ignored k10_ev inert10 k0 s3 (nested (a :: sc) s3) evs); [reflexivity| |exact Htr|].
+    - intros; apply k10_inert; assumption.
+    - eapply Forall_impl; [|exact Hf]. intros e. apply tev_ps_inert. }
+  unfold s3 in *. clear s3. ssimpl.
   constructor; ssimpl; try congruence.
-  - rewrite (KS_frame _ _ (nested (a :: sc) s3) (set_incb (incb s2) (nested (a :: sc) s3))) by reflexivity.
-    rewrite (KS_ignored k10_ev inert10 k0 s3 (nested (a :: sc) s3) evs); [reflexivity| |exact Htr|].
-    + intros; apply k10_inert; assumption.
-    + eapply Forall_impl; [|exact Hf]. intros e. apply tev_ps_inert.
-  - rewrite co_scr. auto.
+  - rewrite (KS_frame _ _ (nested (a :: sc) (set_incb (incb s2) s2)) (set_incb (incb s2) (nested (a :: sc) (set_incb (incb s2) s2)))) by reflexivity.
+    exact EK.
+Qed.
+
+(* _call_socket_unregister_write(sock) inside _sock_close *)
+Lemma call_unregw_tear id s : sock s = None -> scr_ok (scr s) = true ->
+  let s' := call_unregw c nested (Some id) s in
+  KS10 s' = KS10 s /\ sock s' = None /\ cs s' = cs s /\ outq s' = outq s /\ incb s' = incb s /\
+  sched s' = sched s /\ ping s' = ping s /\ proto s' = proto s /\ nsock s' = nsock s /\
+  regw s' = false /\ scr_ok (scr s') = true.
+Proof.
+  intros Hs HS. unfold call_unregw. destruct (regw s) eqn:Er; cbn [negb].
+  2:{ repeat split; try assumption; reflexivity. }
+  destruct (c_ext c).
+  - destruct (run_site_tear SiUnregW (UnregW id) (set_regw false s) (or_intror eq_refl) eq_refl Hs HS) as [].
+    ssimpl. repeat split; try congruence; auto. all: try (rewrite t_ks0; reflexivity).
+  - ssimpl. repeat split; try assumption; reflexivity.
 Qed.
 
 (* _sock_close on a held socket: besides ConnEnd nothing the checkers see *)
@@ -209,36 +232,761 @@ Lemma sock_close_char r id s : sock s = Some id -> scr_ok (scr s) = true ->
 Proof.
   intros Hs HS. unfold sock_close. rewrite Hs.
   set (s1 := emit (ConnEnd id r) (set_sock None s)).
-  assert (Hs1 : sock s1 = None) by reflexivity.
-  (* unregister *)
-  assert (T2 : tear s1 (call_unregw c nested (Some id) s1) \/
-               (regw s1 = true /\ tear (set_regw false s1) (call_unregw c nested (Some id) s1))).
-  { unfold call_unregw. destruct (regw s1) eqn:Er; cbn [negb]; [right; split; [reflexivity|]|left; constructor; auto].
-    destruct (c_ext c); [|constructor; auto].
-    apply run_site_tear; [right; reflexivity|reflexivity|reflexivity|exact HS]. }
-  set (s2 := call_unregw c nested (Some id) s1) in *.
-  assert (T2' : KS10 s2 = KS10 s1 /\ sock s2 = None /\ cs s2 = cs s1 /\ outq s2 = outq s1 /\ incb s2 = incb s1 /\
-                sched s2 = sched s1 /\ ping s2 = ping s1 /\ proto s2 = proto s1 /\ nsock s2 = nsock s1 /\
-                regw s2 = false /\ scr_ok (scr s2) = true).
-  { destruct T2 as [[]|[Er []]]; ssimpl.
-    - assert (regw s1 = false).
-      { unfold s2, call_unregw in t_regw0. destruct (regw s1) eqn:Er; [|reflexivity].
-        (* if the flag was set the left alternative was not chosen *)
-        exfalso. clear - Er t_regw0 T2. unfold s2 in *. clear T2.
-        unfold call_unregw in t_regw0. rewrite Er in t_regw0. cbn [negb] in t_regw0.
-        destruct (c_ext c).
-        - pose proof (run_site_tear SiUnregW (UnregW id) (set_regw false s1) (or_intror eq_refl) eq_refl eq_refl HS) as [].
-          ssimpl. congruence.
-        - ssimpl. congruence. }
-      repeat split; try congruence. auto.
-    - repeat split; try congruence; auto. }
-  destruct T2' as (A1 & A2 & A3 & A4 & A5 & A6 & A7 & A8 & A9 & A10 & A11).
   assert (E1 : KS10 s1 = k10_ev (KS10 s) (ConnEnd id r)).
   { unfold s1. rewrite KS_emit. rewrite (KS_frame _ _ s (set_sock None s)) by reflexivity. reflexivity. }
+  destruct (call_unregw_tear id s1 eq_refl HS) as (A1 & A2 & A3 & A4 & A5 & A6 & A7 & A8 & A9 & A10 & A11).
+  set (s2 := call_unregw c nested (Some id) s1) in *.
+  assert (B : cs s1 = cs s /\ outq s1 = outq s /\ incb s1 = incb s /\ sched s1 = sched s /\ ping s1 = ping s /\
+              proto s1 = proto s /\ nsock s1 = nsock s) by (repeat split; reflexivity).
+  destruct B as (B1 & B2 & B3 & B4 & B5 & B6 & B7).
   destruct (c_sockcb c).
   - destruct (run_site_tear SiClose (SockClose id) s2 (or_introl eq_refl) eq_refl A2 A11) as [].
-    repeat split; try congruence. auto.
+    repeat split; try congruence; auto.
   - repeat split; try congruence.
 Qed.
 
+
+(* _call_socket_register_write *)
+Lemma call_regw_N s : Pre true s ->
+  let s' := call_regw c nested s in
+  Pre true s' /\ incb s' = incb s /\ quiet_rel s s'.
+Proof.
+  intros HP.
+  assert (Q : quiet_rel s (call_regw c nested s)).
+  { destruct (Bool.bool_dec (c_ext c) true) as [Ex|Ex].
+    - apply call_regw_quiet; [exact Hq|left; exact Ex|apply scr_ok_regw; apply HP].
+    - apply not_true_is_false in Ex. unfold call_regw. destruct (sock s) eqn:Es; [|apply quiet_refl].
+      destruct (regw s) eqn:Er; [apply quiet_refl|]. rewrite Ex.
+      apply quiet_frame; try reflexivity; ssimpl; try reflexivity; congruence. }
+  split; [|split; [exact (qr_incb _ _ Q)|exact Q]].
+  unfold call_regw in *. destruct (sock s) as [id|] eqn:Es; [|exact HP].
+  destruct (regw s) eqn:Er; [exact HP|].
+  assert (HP1 : Pre true (set_regw true s)) by (eapply Pre_frame; [| | | | | |exact HP]; reflexivity).
+  destruct (c_ext c) eqn:Ex; [|exact HP1].
+  apply run_site_N; [discriminate|auto|]. apply Pre_emit; [reflexivity|exact HP1].
+Qed.
+
+(* _call_socket_unregister_write() at the end of loop_write *)
+Lemma call_unregw_N s : Pre true s ->
+  let s' := call_unregw c nested None s in Pre true s' /\ incb s' = incb s.
+Proof.
+  intros HP. unfold call_unregw. destruct (sock s) as [id|] eqn:Es; [|split; [exact HP|reflexivity]].
+  destruct (regw s) eqn:Er; cbn [negb]; [|split; [exact HP|reflexivity]].
+  assert (HP1 : Pre true (set_regw false s)) by (eapply Pre_frame; [| | | | | |exact HP]; reflexivity).
+  destruct (c_ext c) eqn:Ex; [|split; [exact HP1|reflexivity]].
+  destruct (run_site_N SiUnregW false (UnregW id) (set_regw false s)) as (A & B & _); [discriminate|auto| |].
+  - apply Pre_emit; [reflexivity|exact HP1].
+  - split; [exact A|exact B].
+Qed.
+
+(* a connection ends for a reason other than replacement: close, state, on_disconnect *)
+Lemma close_lost r rc fb id s : Pre true s -> sock s = Some id -> incb s = false ->
+  is_replaced r = false -> (fb = false -> rc <> 0) ->
+  let s' := fst (lost_tail nested rc fb (sock_close c nested r s)) in
+  Pre true s' /\ incb s' = false.
+Proof.
+  intros (HV & HS & HF) Hs Hi Hr Hrc.
+  destruct (sock_close_char r id s Hs HS) as (A1 & A2 & A3 & A4 & A5 & A6 & A7 & A8 & A9 & A10 & A11).
+  set (s1 := sock_close c nested r s) in *.
+  unfold lost_tail.
+  assert (Ed : disc_state s1 = disc_state s) by (unfold disc_state; rewrite A3; reflexivity).
+  assert (G : forall x rc', (is_connected (set_cs x s1) = false) ->
+              (fb = true \/ (rc' =? 0) = disc_state s) ->
+              let s' := do_on_disconnect nested rc' fb (set_cs x s1) in Pre true s' /\ incb s' = false).
+  { intros x rc' Hx Hcond. unfold do_on_disconnect, has_sock. ssimpl. rewrite A2.
+    destruct (run_site_N SiDisconnect true (CbDisconnect rc' fb) (set_cs x s1)) as (B1 & B2 & _).
+    - intros _. ssimpl. congruence.
+    - discriminate.
+    - split; [|split].
+      + rewrite KS_emit. rewrite (KS_frame _ _ s1 (set_cs x s1)) by reflexivity. rewrite A1.
+        eapply V_end_lost; [exact HV|exact Hs|exact Hr|exact Hcond|ssimpl; exact A2|exact Hx].
+      + ssimpl. exact A11.
+      + unfold nofail in *. ssimpl. rewrite A6. exact HF.
+    - split; [exact B1|]. rewrite B2. ssimpl. congruence. }
+  rewrite Ed. destruct (disc_state s) eqn:Eds; cbn [fst].
+  - apply G; [reflexivity|]. destruct fb; [left; reflexivity|right; reflexivity].
+  - apply G; [reflexivity|]. destruct fb; [left; reflexivity|right]. apply Z.eqb_neq. apply Hrc. reflexivity.
+Qed.
+
+Lemma loop_rc_handle_N rc id s : Pre true s -> sock s = Some id -> incb s = false -> rc > 0 ->
+  let s' := fst (loop_rc_handle c nested rc s) in Pre true s' /\ incb s' = false.
+Proof. intros. unfold loop_rc_handle. apply close_lost with (id := id); auto. intros; lia. Qed.
+
+Lemma keepalive_close_N id s : Pre true s -> sock s = Some id -> incb s = false ->
+  let s' := keepalive_close c nested s in Pre true s' /\ incb s' = false.
+Proof. intros. unfold keepalive_close. apply close_lost with (id := id); auto. unfold E_KEEPALIVE. intros; lia. Qed.
+
+Lemma call_regw_Q s : scr_ok (scr s) = true -> quiet_rel s (call_regw c nested s).
+Proof.
+  intros HS. destruct (Bool.bool_dec (c_ext c) true) as [Ex|Ex].
+  - apply call_regw_quiet; [exact Hq|left; exact Ex|apply scr_ok_regw; exact HS].
+  - apply not_true_is_false in Ex. unfold call_regw. destruct (sock s) eqn:Es; [|apply quiet_refl].
+    destruct (regw s) eqn:Er; [apply quiet_refl|]. rewrite Ex.
+    apply quiet_frame; try reflexivity; ssimpl; try reflexivity; congruence.
+Qed.
+
+Lemma pop_outcome_spec s : nofail s ->
+  let o := fst (pop_outcome s) in let s1 := snd (pop_outcome s) in
+  tr s1 = tr s /\ sock s1 = sock s /\ cs s1 = cs s /\ outq s1 = outq s /\ scr s1 = scr s /\ incb s1 = incb s /\
+  nofail s1 /\ (nf = true -> o <> OFail).
+Proof.
+  intros HF. unfold pop_outcome. destruct (sched s) as [|o l] eqn:E; cbn [fst snd].
+  - repeat split; try reflexivity; [exact HF|discriminate].
+  - ssimpl. repeat split; try reflexivity.
+    + unfold nofail in *. ssimpl. intros X. specialize (HF X). rewrite E in HF. eapply nofail_tail. exact HF.
+    + intros X Y. subst o. specialize (HF X). rewrite E in HF. discriminate.
+Qed.
+
+Lemma Vc_obs id s k x hs ww rw : Vc id s k -> Vc id s (k10_ev k (Obs x (is_connected s) hs ww rw)).
+Proof.
+  intros HV. destruct HV as [cok1 cok2 cok3 csock ccur1 ccur2 ccs cowed ccredit].
+  assert (E : is_connected s = false) by (unfold is_connected; rewrite ccs; reflexivity). rewrite E.
+  k10s. destruct (teardown_site x); k10s; constructor; k10s; try assumption.
+  rewrite cok1. reflexivity.
+Qed.
+
+(* a DISCONNECT packet has just been written completely *)
+Lemma disc_written id p q' s s1 : Pre true s -> outq s = p :: q' -> qk p = KDisconnect -> sock s = Some id ->
+  incb s = false -> tr s1 = tr s -> sock s1 = sock s -> cs s1 = cs s -> outq s1 = q' -> scr s1 = scr s ->
+  incb s1 = incb s -> nofail s1 ->
+  let s3 := do_on_disconnect nested 0 false (emit (Tx id KDisconnect) s1) in
+  let s4 := sock_close c nested RDiscWritten s3 in
+  let s5 := match cs s4 with CsDisconnecting => set_cs CsDisconnected s4 | _ => s4 end in
+  Pre true s5 /\ incb s5 = false.
+Proof.
+  intros (HV & HS & HF) Hq0 Hk Hs Hi Ftr Fsock Fcs Foutq Fscr Fincb HF1.
+  set (s2 := emit (Tx id KDisconnect) s1).
+  assert (W0 : Vc id s2 (k10_ev (KS10 s2) (CbDisconnect 0 false))).
+  { unfold s2. rewrite KS_emit, (KS_frame _ _ _ _ Ftr).
+    pose proof (Vc_enter id p q' s (KS10 s) Hs Hq0 ltac:(rewrite Hk; reflexivity) HV) as W. rewrite Hk in W.
+    destruct W as [cok1 cok2 cok3 csock ccur1 ccur2 ccs cowed ccredit]. ssimpl.
+    constructor; ssimpl; try assumption; congruence. }
+  unfold do_on_disconnect, has_sock. fold s2.
+  assert (Es2 : sock s2 = Some id) by (unfold s2; ssimpl; congruence). rewrite Es2.
+  unfold run_site. assert (Ei : incb s2 = false) by (unfold s2; ssimpl; congruence). rewrite Ei. cbn [andb].
+  set (sa := obs (WCb SiDiscOpen) (emit (CbDisconnect 0 false) s2)).
+  assert (Wa : Vc id sa (KS10 sa)).
+  { unfold sa, obs. rewrite KS_emit, KS_emit.
+    destruct W0 as [cok1 cok2 cok3 csock ccur1 ccur2 ccs cowed ccredit].
+    assert (W0' : Vc id (emit (CbDisconnect 0 false) s2) (k10_ev (KS10 s2) (CbDisconnect 0 false))).
+    { constructor; ssimpl; assumption. }
+    pose proof (Vc_obs id _ _ (WCb SiDiscOpen) (has_sock (emit (CbDisconnect 0 false) s2))
+                  (want_write (emit (CbDisconnect 0 false) s2)) (regw s2) W0') as W1.
+    destruct W1 as [cok1' cok2' cok3' csock' ccur1' ccur2' ccs' cowed' ccredit']. constructor; ssimpl; assumption. }
+  assert (HSa : scr_ok (scr sa) = true) by (unfold sa, s2; ssimpl; rewrite Fscr; exact HS).
+  pose proof (pop_script_frame SiDiscOpen sa) as F.
+  pose proof (scr_ok_pop SiDiscOpen sa HSa) as HSb.
+  pose proof (scr_ok_pop_discopen sa HSa) as Hsc.
+  destruct (pop_script SiDiscOpen sa) as [sc sb]. cbn [fst snd] in *.
+  destruct F as (Gcs & Gsock & Gregw & Goutq & Gping & Gincb & Gproto & Gnsock & Gsched & Gtr).
+  assert (Wb : Vc id sb (KS10 sb)).
+  { rewrite (KS_frame _ _ _ _ Gtr). destruct Wa as [cok1 cok2 cok3 csock ccur1 ccur2 ccs cowed ccredit].
+    constructor; try assumption; congruence. }
+  (* the state after the callback returned *)
+  assert (R : exists sw, (match sc with [] => sb | _ :: _ => set_incb (incb sb) (nested sc (set_incb (true || incb sb) sb)) end) = sw /\
+              Vc id sw (KS10 sw) /\ scr_ok (scr sw) = true /\ incb sw = false /\ sched sw = sched s1).
+  { assert (Hib : incb sb = false) by (rewrite Gincb; unfold sa; ssimpl; exact Ei).
+    assert (Hsb : sched sb = sched s1) by (rewrite Gsched; reflexivity).
+    destruct sc as [|a sc]; [exists sb; split; [reflexivity|]; split; [exact Wb|]; split; [exact HSb|]; split; [exact Hib|exact Hsb]|].
+    eexists; split; [reflexivity|].
+    set (sc0 := set_incb (true || incb sb) sb).
+    assert (Wc : Vc id sc0 (KS10 sc0)).
+    { rewrite (KS_frame _ _ sb sc0) by reflexivity. destruct Wb as [cok1 cok2 cok3 csock ccur1 ccur2 ccs cowed ccredit].
+      constructor; ssimpl; assumption. }
+    assert (Q : quiet_rel sc0 (nested (a :: sc) sc0)).
+    { apply Hq; [right; reflexivity|exact Hsc|apply scr_ok_regw; exact HSb]. }
+    pose proof (Vc_quiet id _ _ k0 Q Wc) as Wd.
+    split; [|split; [|split]].
+    - rewrite (KS_frame _ _ (nested (a :: sc) sc0) (set_incb (incb sb) (nested (a :: sc) sc0))) by reflexivity.
+      destruct Wd as [cok1 cok2 cok3 csock ccur1 ccur2 ccs cowed ccredit]. constructor; ssimpl; assumption.
+    - ssimpl. eapply scr_ok_quiet; [exact Q|exact HSb].
+    - ssimpl. exact Hib.
+    - ssimpl. rewrite (qr_sched _ _ Q). exact Hsb. }
+  destruct R as (sw & Esw & Ww & HSw & Hiw & Hschw). rewrite Esw. clear Esw.
+  destruct Ww as [cok1 cok2 cok3 csock ccur1 ccur2 ccs cowed ccredit].
+  destruct (sock_close_char RDiscWritten id sw csock HSw) as (A1 & A2 & A3 & A4 & A5 & A6 & A7 & A8 & A9 & A10 & A11).
+  set (s4 := sock_close c nested RDiscWritten sw) in *.
+  rewrite A3, ccs.
+  split; [|ssimpl; congruence].
+  split; [|split].
+  - rewrite (KS_frame _ _ s4 (set_cs CsDisconnected s4)) by reflexivity. rewrite A1.
+    eapply Vc_end; [constructor; eassumption|ssimpl; exact A2|reflexivity].
+  - ssimpl. exact A11.
+  - unfold nofail in *. ssimpl. rewrite A6, Hschw. exact HF1.
+Qed.
+
+Lemma V_restart b p q' s k : outq s = p :: q' -> V true s k -> V true (set_outq (mkQ (qk p) b :: q') s) k.
+Proof.
+  intros Hq0 HV. destruct HV as [ok1 ok2 ok3 cur1 cur2 cur3 conn owed credit disc qdisc wire new].
+  rewrite Hq0 in *. constructor; ssimpl; try assumption.
+  intros; discriminate.
+Qed.
+
+Lemma pw_loop_N : forall n s, Pre true s -> incb s = false -> (sock s = None -> outq s = []) ->
+  Pre true (fst (pw_loop c nested n s)) /\ incb (fst (pw_loop c nested n s)) = false /\
+  (snd (pw_loop c nested n s) > 0 -> sock (fst (pw_loop c nested n s)) <> None) /\
+  (nf = true -> snd (pw_loop c nested n s) <= 0).
+Proof.
+  induction n as [|n IH]; intros s HP Hi Hno; cbn [pw_loop].
+  { cbn [fst snd]. split; [apply Pre_emit; [reflexivity|exact HP]|]. split; [exact Hi|]. split; intros; lia. }
+  destruct (outq s) as [|p q'] eqn:Eq0.
+  { cbn [fst snd]. split; [exact HP|]. split; [exact Hi|]. split; intros; lia. }
+  destruct (sock s) as [id|] eqn:Es; [|specialize (Hno eq_refl); discriminate].
+  ssimpl. rewrite Es.
+  destruct HP as (HV & HS & HF).
+  pose proof (pop_outcome_spec (set_outq q' s) HF) as Sp.
+  destruct (pop_outcome (set_outq q' s)) as [o s1]. cbn [fst snd] in Sp.
+  destruct Sp as (Ftr & Fsock & Fcs & Foutq & Fscr & Fincb & HF1 & Hof). ssimpl.
+  (* the head packet put back *)
+  assert (Hback : forall b, Pre true (push_front (mkQ (qk p) b) s1)).
+  { intros b. split; [|split; [ssimpl; rewrite Fscr; exact HS|unfold nofail in *; ssimpl; exact HF1]].
+    rewrite (KS_frame _ _ s (push_front (mkQ (qk p) b) s1)) by (ssimpl; exact Ftr).
+    apply V_frame with (s := set_outq (mkQ (qk p) b :: q') s); ssimpl; try congruence.
+    apply V_restart; assumption. }
+  assert (Hback' : Pre true (push_front p s1)).
+  { specialize (Hback (qstarted p)). destruct p; exact Hback. }
+  assert (Hblocked : let s' := push_front p (call_regw c nested s1) in
+                     Pre true s' /\ incb s' = false).
+  { pose proof (call_regw_Q s1 ltac:(rewrite Fscr; exact HS)) as Q.
+    split; [|ssimpl; rewrite (qr_incb _ _ Q); congruence].
+    split; [|split].
+    - rewrite (KS_frame _ _ (call_regw c nested s1) (push_front p (call_regw c nested s1))) by reflexivity.
+      pose proof (V_quiet [p] s1 (call_regw c nested s1) k0 Q) as X. cbn [app] in X. apply X.
+      destruct Hback' as (X1 & _). rewrite (KS_frame _ _ s1 (push_front p s1)) in X1 by reflexivity. exact X1.
+    - ssimpl. eapply scr_ok_quiet; [exact Q|rewrite Fscr; exact HS].
+    - unfold nofail in *. ssimpl. rewrite (qr_sched _ _ Q). exact HF1. }
+  assert (Hs1 : sock s1 = Some id) by congruence.
+  assert (Hi1 : incb s1 = false) by congruence.
+  destruct o.
+  - (* everything accepted *)
+    destruct (is_disconnect (qk p)) eqn:Ed.
+    + assert (Hk : qk p = KDisconnect) by (destruct (qk p); try discriminate; reflexivity). rewrite Hk.
+      cbn [fst snd].
+      pose proof (disc_written id p q' s s1 (conj HV (conj HS HF)) Eq0 Hk Es Hi Ftr Fsock Fcs Foutq Fscr Fincb HF1) as (X1 & X2).
+      split; [exact X1|]. split; [exact X2|]. split; intros; lia.
+    + assert (HP2 : Pre true (emit (Tx id (qk p)) s1)).
+      { split; [|split; [ssimpl; rewrite Fscr; exact HS|unfold nofail in *; ssimpl; exact HF1]].
+        rewrite KS_emit, (KS_frame _ _ _ _ Ftr).
+        apply V_frame with (s := set_outq q' s); ssimpl; try congruence.
+        apply V_tx; assumption. }
+      assert (Hother : let r := pw_loop c nested n (emit (Tx id (qk p)) s1) in
+                Pre true (fst r) /\ incb (fst r) = false /\ (snd r > 0 -> sock (fst r) <> None) /\ (nf = true -> snd r <= 0)).
+      { apply IH; [exact HP2|ssimpl; exact Hi1|ssimpl; congruence]. }
+      destruct (qk p) eqn:Ek; try exact Hother; [discriminate Ed|].
+      (* QoS 0 PUBLISH: on_publish *)
+      destruct (run_site_N SiPublish true CbPublish (emit (Tx id KPublish0) s1)) as (B1 & B2 & B3).
+      * intros _. ssimpl. exact Hi1.
+      * discriminate.
+      * apply Pre_emit; [reflexivity|exact HP2].
+      * apply IH; [exact B1|rewrite B2; ssimpl; exact Hi1|].
+        intros X. destruct (B3 X) as [[Y _]|Y]; [ssimpl; congruence|exact Y].
+  - (* all but the last byte *)
+    destruct (qstarted p).
+    + cbn [fst snd]. destruct Hblocked as (X1 & X2). split; [exact X1|]. split; [exact X2|]. unfold E_AGAIN. split; intros; lia.
+    + apply IH; [apply Hback|ssimpl; exact Hi1|ssimpl; congruence].
+  - cbn [fst snd]. destruct Hblocked as (X1 & X2). split; [exact X1|]. split; [exact X2|]. unfold E_AGAIN. split; intros; lia.
+  - cbn [fst snd]. split; [exact Hback'|]. split; [ssimpl; exact Hi1|]. split; intros; lia.
+  - cbn [fst snd]. split; [exact Hback'|]. split; [ssimpl; exact Hi1|]. split.
+    + intros _. ssimpl. congruence.
+    + intros X. exfalso. exact (Hof X eq_refl).
+Qed.
+
+Lemma loop_write_N s : Pre true s -> incb s = false ->
+  let r := loop_write c nested s in
+  Pre true (fst r) /\ incb (fst r) = false /\ (nf = true -> sock s <> None -> snd r = 0).
+Proof.
+  intros HP Hi. unfold loop_write. destruct (sock s) as [id|] eqn:Es.
+  2:{ cbn [fst snd]. split; [exact HP|]. split; [exact Hi|]. intros _ X. congruence. }
+  unfold packet_write.
+  destruct (pw_loop_N (pw_fuel s) s HP Hi ltac:(intros X; congruence)) as (A1 & A2 & A3 & A4).
+  destruct (pw_loop c nested (pw_fuel s) s) as [s1 rc]. cbn [fst snd] in *.
+  assert (B : let r2 := (if rc =? E_AGAIN then (s1, 0) else if rc >? 0 then loop_rc_handle c nested rc s1 else (s1, 0)) in
+              Pre true (fst r2) /\ incb (fst r2) = false /\ (nf = true -> snd r2 = 0)).
+  { destruct (rc =? E_AGAIN); [cbn [fst snd]; auto|].
+    destruct (rc >? 0) eqn:Eg; [|cbn [fst snd]; auto].
+    assert (Hg : rc > 0) by lia. destruct (sock s1) as [id1|] eqn:Es1; [|exfalso; apply (A3 Hg); reflexivity].
+    destruct (loop_rc_handle_N rc id1 s1 A1 Es1 A2 Hg) as (C1 & C2).
+    split; [exact C1|]. split; [exact C2|]. intros X. specialize (A4 X). lia. }
+  destruct (if rc =? E_AGAIN then (s1, 0) else if rc >? 0 then loop_rc_handle c nested rc s1 else (s1, 0)) as [s2 rc2].
+  cbn [fst snd] in *. destruct B as (B1 & B2 & B3).
+  destruct (want_write s2).
+  - destruct (call_regw_N s2 B1) as (C1 & C2 & _). split; [exact C1|]. split; [congruence|]. intros X _. apply B3. exact X.
+  - destruct (call_unregw_N s2 B1) as (C1 & C2). split; [exact C1|]. split; [congruence|]. intros X _. apply B3. exact X.
+Qed.
+
+(* _packet_queue; the caller shows that the invariant holds with the packet appended *)
+Lemma packet_queue_N k s : Pre true (set_outq (outq s ++ [mkQ k false]) s) -> sock s <> None ->
+  let r := packet_queue c nested k s in
+  Pre true (fst r) /\ incb (fst r) = incb s /\ (NW c s -> sock (fst r) = sock s) /\
+  (c_ext c = true \/ nf = true -> snd r = 0).
+Proof.
+  intros HP Hs. unfold packet_queue.
+  set (s1 := set_outq (outq s ++ [mkQ k false]) s) in *.
+  destruct (negb (c_ext c) && negb (incb s1)) eqn:E.
+  - apply andb_true_iff in E as [E1 E2]. apply negb_true_iff in E1, E2.
+    destruct (loop_write_N s1 HP E2) as (A1 & A2 & A3).
+    split; [exact A1|]. split; [rewrite A2; symmetry; exact E2|]. split.
+    + intros [X|X]; [congruence|]. unfold s1 in E2. ssimpl. congruence.
+    + intros [X|X]; [congruence|]. apply A3; [exact X|exact Hs].
+  - cbn [fst snd]. destruct (call_regw_N s1 HP) as (A1 & A2 & A3).
+    split; [exact A1|]. split; [exact A2|]. split; [|reflexivity].
+    intros _. rewrite (qr_sock _ _ A3). reflexivity.
+Qed.
+
+Lemma V_nosock_outq w s k q : sock s = None -> V w s k -> w = true -> V true (set_outq q s) k.
+Proof.
+  intros Hs HV ->. destruct HV as [ok1 ok2 ok3 cur1 cur2 cur3 conn owed credit disc qdisc wire new].
+  constructor; ssimpl; try assumption; try congruence.
+Qed.
+
+(* the body of reconnect() *)
+Lemma reconnect_body_N ok s : Pre true s ->
+  let r := reconnect_body c nested ok s in
+  Pre true (fst r) /\ incb (fst r) = incb s /\ (NW c s -> Rel s (fst r)) /\
+  (c_ext c = true \/ nf = true -> snd r = Some 0 \/ snd r = None).
+Proof.
+  intros (HV & HS & HF). unfold reconnect_body.
+  set (s1 := set_cs CsConnecting (set_ping false s)).
+  (* after _sock_close: no socket, state CONNECTING *)
+  assert (C1 : let s2 := sock_close c nested RReplaced s1 in
+               V true s2 (KS10 s2) /\ sock s2 = None /\ cs s2 = CsConnecting /\ incb s2 = incb s /\
+               sched s2 = sched s /\ scr_ok (scr s2) = true).
+  { destruct (sock s) as [id|] eqn:Es.
+    - destruct (sock_close_char RReplaced id s1 Es HS) as (A1 & A2 & A3 & A4 & A5 & A6 & A7 & A8 & A9 & A10 & A11).
+      split; [|repeat split; assumption].
+      rewrite A1. rewrite (KS_frame _ _ s s1) by reflexivity.
+      eapply V_end_replaced; [exact HV|exact Es|exact A2|]. unfold is_connected. rewrite A3. reflexivity.
+    - unfold sock_close. assert (E : sock s1 = None) by exact Es. rewrite E.
+      split; [|repeat split; try assumption; reflexivity].
+      rewrite (KS_frame _ _ s s1) by reflexivity.
+      destruct HV as [ok1 ok2 ok3 cur1 cur2 cur3 conn owed credit disc qdisc wire new].
+      apply V_nosock; try assumption; try reflexivity; try congruence. }
+  set (s2 := sock_close c nested RReplaced s1) in *.
+  destruct C1 as (V2 & S2 & CS2 & I2 & SC2 & HS2).
+  set (s3 := set_outq [] s2).
+  assert (V3 : V true s3 (KS10 s3)).
+  { rewrite (KS_frame _ _ s2 s3) by reflexivity. apply (V_nosock_outq true s2 _ [] S2 V2 eq_refl). }
+  destruct ok; cbn [negb].
+  2:{ cbn [fst snd]. split; [|split; [ssimpl; exact I2|split; [|intros _; right; reflexivity]]].
+      - apply Pre_emit; [reflexivity|]. split; [exact V3|]. split; [exact HS2|].
+        unfold nofail in *. unfold s3. ssimpl. rewrite SC2. exact HF.
+      - intros _ _. right. reflexivity. }
+  set (id := nsock s3 + 1).
+  set (s4 := emit (SockNew id) (set_regw false (set_sock (Some id) (set_nsock id s3)))).
+  assert (P4 : Pre false s4).
+  { split; [|split; [exact HS2|unfold nofail in *; unfold s4, s3; ssimpl; rewrite SC2; exact HF]].
+    unfold s4. rewrite KS_emit. rewrite (KS_frame _ _ s3 (set_regw false (set_sock (Some id) (set_nsock id s3)))) by reflexivity.
+    eapply V_sock_new; [exact V3|exact S2|reflexivity|ssimpl; exact CS2|reflexivity]. }
+  assert (C5 : let s5 := (if c_sockcb c then run_site nested SiOpen false (SockOpen id) s4 else s4) in
+               Pre false s5 /\ incb s5 = incb s /\ sock s5 = Some id).
+  { destruct (c_sockcb c).
+    - destruct (run_site_open (SockOpen id) s4) as (A1 & A2 & A3 & A4 & A5); [apply Pre_emit; [reflexivity|exact P4]|].
+      split; [exact A1|]. split; [rewrite A2; unfold s4; ssimpl; exact I2|rewrite A3; reflexivity].
+    - split; [exact P4|]. split; [unfold s4; ssimpl; exact I2|reflexivity]. }
+  set (s5 := if c_sockcb c then run_site nested SiOpen false (SockOpen id) s4 else s4) in *.
+  destruct C5 as (P5 & I5 & S5).
+  assert (P5' : Pre true (set_outq (outq s5 ++ [mkQ KConnect false]) s5)).
+  { destruct P5 as (X1 & X2 & X3). split; [|split; [exact X2|exact X3]].
+    rewrite (KS_frame _ _ s5 (set_outq (outq s5 ++ [mkQ KConnect false]) s5)) by reflexivity.
+    apply V_append_connect. exact X1. }
+  destruct (packet_queue_N KConnect s5 P5' ltac:(congruence)) as (A1 & A2 & A3 & A4).
+  destruct (packet_queue c nested KConnect s5) as [s6 rc]. cbn [fst snd] in *.
+  split; [exact A1|]. split; [congruence|]. split.
+  - intros Hnw X. exfalso.
+    assert (Hnw5 : NW c s5) by (destruct Hnw as [Y|Y]; [left; exact Y|right; congruence]).
+    rewrite (A3 Hnw5) in X. congruence.
+  - intros X. left. rewrite (A4 X). reflexivity.
+Qed.
+
+Lemma api_reconnect_N ok s : Pre true s ->
+  let r := api_reconnect c nested ok s in
+  Pre true (fst r) /\ incb (fst r) = incb s /\ (NW c s -> Rel s (fst r)) /\
+  (c_ext c = true \/ nf = true -> snd r = Some 0 \/ snd r = None).
+Proof.
+  intros HP. unfold api_reconnect.
+  destruct (reconnect_body_N ok (emit (Call CReconnect) s)) as (A1 & A2 & A3 & A4); [apply Pre_emit; [reflexivity|exact HP]|].
+  split; [exact A1|]. split; [exact A2|]. split; [|exact A4].
+  intros X. eapply Rel_frame with (s1' := emit (Call CReconnect) s); try reflexivity. apply A3. exact X.
+Qed.
+
+Lemma api_send_N ck k s : Pre true s -> inert10 (Call ck) = true -> is_connect k = false -> is_disconnect k = false ->
+  let r := api_send c nested ck k s in
+  Pre true (fst r) /\ incb (fst r) = incb s /\ (NW c s -> Rel s (fst r)).
+Proof.
+  intros HP Hck Hk Hkd. unfold api_send. ssimpl.
+  assert (HP1 : Pre true (emit (Call ck) s)) by (apply Pre_emit; assumption).
+  destruct (sock s) as [id|] eqn:Es; cbn [fst].
+  2:{ split; [exact HP1|]. split; [reflexivity|]. intros _ X. left. split; [exact Es|reflexivity]. }
+  destruct (packet_queue_N k (emit (Call ck) s)) as (A1 & A2 & A3 & _).
+  - destruct HP1 as (X1 & X2 & X3). split; [|split; [exact X2|exact X3]].
+    rewrite (KS_frame _ _ (emit (Call ck) s) (set_outq (outq (emit (Call ck) s) ++ [mkQ k false]) (emit (Call ck) s))) by reflexivity.
+    apply V_append; [exact X1|exact Hk|rewrite Hkd; discriminate].
+  - ssimpl. congruence.
+  - split; [exact A1|]. split; [exact A2|]. intros Hnw X. exfalso. rewrite (A3 Hnw) in X. ssimpl. congruence.
+Qed.
+
+Lemma api_disconnect_N s : Pre true s ->
+  let r := api_disconnect c nested s in
+  Pre true (fst r) /\ incb (fst r) = incb s /\ (NW c s -> Rel s (fst r)).
+Proof.
+  intros (HV & HS & HF). unfold api_disconnect. ssimpl.
+  destruct (sock s) as [id|] eqn:Es; cbn [fst].
+  - set (s1 := set_cs CsDisconnecting (emit (Call CDisconnect) s)).
+    assert (V1 : V true s1 (KS10 s1)).
+    { unfold s1. rewrite (KS_frame _ _ (emit (Call CDisconnect) s) (set_cs CsDisconnecting (emit (Call CDisconnect) s))) by reflexivity.
+      rewrite KS_emit. apply V_frame with (s := set_cs CsDisconnecting s); try reflexivity.
+      eapply V_call_disc_some; eassumption. }
+    destruct (packet_queue_N KDisconnect s1) as (A1 & A2 & A3 & _).
+    + split; [|split; [exact HS|exact HF]].
+      rewrite (KS_frame _ _ s1 (set_outq (outq s1 ++ [mkQ KDisconnect false]) s1)) by reflexivity.
+      apply V_append; [exact V1|reflexivity|intros _ _; reflexivity].
+    + unfold s1. ssimpl. congruence.
+    + split; [exact A1|]. split; [exact A2|]. intros Hnw X. exfalso. rewrite (A3 Hnw) in X. unfold s1 in X. ssimpl. congruence.
+  - split; [|split; [reflexivity|intros _ X; left; split; [exact Es|reflexivity]]].
+    split; [|split; [exact HS|exact HF]].
+    rewrite (KS_frame _ _ (emit (Call CDisconnect) s) (set_cs CsDisconnected (emit (Call CDisconnect) s))) by reflexivity.
+    rewrite KS_emit. apply V_frame with (s := set_cs CsDisconnected s); try reflexivity.
+    apply V_call_disc_none; assumption.
+Qed.
+
+Lemma api_nested_N a s : NW c s -> Pre true s ->
+  let s' := api_nested c nested a s in Pre true s' /\ incb s' = incb s /\ Rel s s'.
+Proof.
+  intros Hnw HP. destruct a; cbn [api_nested].
+  - destruct (api_send_N CPublish KPublish0 s HP eq_refl eq_refl eq_refl) as (A1 & A2 & A3). auto.
+  - destruct (api_send_N CSubscribe KSubscribe s HP eq_refl eq_refl eq_refl) as (A1 & A2 & A3). auto.
+  - destruct (api_disconnect_N s HP) as (A1 & A2 & A3). auto.
+  - destruct (api_reconnect_N ok s HP) as (A1 & A2 & A3 & _). auto.
+Qed.
+
+Lemma exec_script_N : forall sc s, NW c s -> Pre true s ->
+  let s' := exec_script c nested sc s in Pre true s' /\ incb s' = incb s /\ Rel s s'.
+Proof.
+  unfold exec_script. induction sc as [|a sc IH]; intros s Hnw HP; cbn [fold_left].
+  - split; [exact HP|]. split; [reflexivity|apply Rel_refl].
+  - destruct (api_nested_N a s Hnw HP) as (A1 & A2 & A3).
+    assert (Hnw' : NW c (api_nested c nested a s)) by (destruct Hnw as [X|X]; [left; exact X|right; congruence]).
+    destruct (IH _ Hnw' A1) as (B1 & B2 & B3).
+    split; [exact B1|]. split; [congruence|]. eapply Rel_trans; eassumption.
+Qed.
+
+(* a callback whose script does not call reconnect() leaves the socket in place *)
+Lemma run_site_sock si ev s : incb s = false ->
+  script_noreconn (fst (pop_script si (obs (WCb si) (emit ev s)))) = true -> scr_ok (scr s) = true ->
+  sock (run_site nested si true ev s) = sock s.
+Proof.
+  intros Hi Hsc HS. unfold run_site. rewrite Hi. cbn [andb].
+  pose proof (pop_script_frame si (obs (WCb si) (emit ev s))) as F.
+  pose proof (scr_ok_pop si (obs (WCb si) (emit ev s)) HS) as HS2.
+  destruct (pop_script si (obs (WCb si) (emit ev s))) as [sc s2]. cbn [fst snd] in *.
+  destruct F as (Fcs & Fsock & Fregw & Foutq & Fping & Fincb & Fproto & Fnsock & Fsched & Ftr).
+  destruct sc as [|a sc]; [exact Fsock|]. gsimpl.
+  rewrite (qr_sock _ _ (Hq (a :: sc) (set_incb (true || incb s2) s2) (or_intror eq_refl) Hsc (scr_ok_regw _ HS2))).
+  gsimpl. exact Fsock.
+Qed.
+
+Lemma pop_connect_noreconn s : queue_noreconn (q_connect (scr s)) = true ->
+  script_noreconn (fst (pop_script SiConnect s)) = true.
+Proof.
+  intros H. unfold pop_script. pose proof (pop_list_noreconn _ H) as [X _].
+  destruct (pop_list (q_connect (scr s))). exact X.
+Qed.
+
+Lemma handle_connack_N rc id s : Pre true s -> sock s = Some id -> incb s = false ->
+  (rc = 0 -> disc_state s = false) -> (rc <> 0 -> queue_noreconn (q_connect (scr s)) = true) ->
+  let s' := fst (handle_connack nested rc s) in
+  Pre true s' /\ incb s' = false /\ (rc <> 0 -> sock s' = Some id).
+Proof.
+  intros (HV & HS & HF) Hs Hi Hd Hc. unfold handle_connack. cbn [fst].
+  set (s1 := if rc =? 0 then set_cs CsConnected s else s).
+  assert (F1 : sock s1 = sock s /\ incb s1 = incb s /\ scr s1 = scr s /\ sched s1 = sched s /\ tr s1 = tr s).
+  { unfold s1. destruct (rc =? 0); repeat split. }
+  destruct F1 as (F1 & F2 & F3 & F4 & F5).
+  assert (HP1 : Pre true (emit (CbConnect rc) s1)).
+  { split; [|split; [ssimpl; rewrite F3; exact HS|unfold nofail in *; ssimpl; rewrite F4; exact HF]].
+    rewrite KS_emit, (KS_frame _ _ _ _ F5). apply V_frame with (s := s1); try reflexivity.
+    apply V_cb_connect; [exact HV|congruence|exact Hd]. }
+  destruct (run_site_N SiConnect true (CbConnect rc) s1) as (A1 & A2 & _); [intros _; congruence|discriminate|exact HP1|].
+  split; [exact A1|]. split; [congruence|].
+  intros Hr. rewrite run_site_sock; [congruence|congruence| |rewrite F3; exact HS].
+  apply pop_connect_noreconn. unfold obs. ssimpl. rewrite F3. apply Hc. exact Hr.
+Qed.
+
+Lemma after_read_rc0 s : after_read c nested (s, Some 0) = (s, Some 0).
+Proof. reflexivity. Qed.
+
+Lemma after_read_N rc id s : Pre true s -> sock s = Some id -> incb s = false -> rc >= 0 ->
+  let s' := fst (after_read c nested (s, Some rc)) in Pre true s' /\ incb s' = false.
+Proof.
+  intros HP Hs Hi Hrc. cbn [after_read]. destruct (rc >? 0) eqn:E; [|cbn [fst]; auto].
+  destruct (loop_rc_handle_N rc id s HP Hs Hi ltac:(lia)) as (A1 & A2).
+  destruct (loop_rc_handle c nested rc s). exact (conj A1 A2).
+Qed.
+
+Section Read.
+Hypothesis Hrc0 : c_ext c = true \/ nf = true.
+
+Lemma downgrade_N ok s : Pre true s -> incb s = false ->
+  let s' := fst (after_read c nested (downgrade c nested ok s)) in Pre true s' /\ incb s' = false.
+Proof.
+  intros HP Hi. unfold downgrade.
+  destruct (reconnect_body_N ok (set_proto 3 s)) as (A1 & A2 & _ & A4).
+  { eapply Pre_frame; [| | | | | |exact HP]; reflexivity. }
+  destruct (reconnect_body c nested ok (set_proto 3 s)) as [s1 r]. cbn [fst snd] in *.
+  ssimpl. destruct (A4 Hrc0) as [-> | ->]; [rewrite after_read_rc0|cbn [after_read]]; cbn [fst]; (split; [exact A1|congruence]).
+Qed.
+
+Lemma connack_err_pos rc : connack_err rc > 0.
+Proof. unfold connack_err, E_CONN_REFUSED, E_PROTOCOL. destruct ((0 <? rc) && (rc <? 6)); lia. Qed.
+
+Lemma loop_read_N i s : Pre true s -> incb s = false ->
+  (accepting (TLoopRead i) = true -> disc_state s = false) ->
+  (refusing s (TLoopRead i) = true -> queue_noreconn (q_connect (scr s)) = true) ->
+  let s' := fst (loop_read c nested i s) in Pre true s' /\ incb s' = false.
+Proof.
+  intros HP Hi He Hc. unfold loop_read. destruct (sock s) as [id|] eqn:Es; [|cbn [fst]; auto].
+  assert (Hack : forall rc, (rc = 0 -> disc_state s = false) -> (rc <> 0 -> queue_noreconn (q_connect (scr s)) = true) ->
+            let s' := fst (after_read c nested (handle_connack nested rc s)) in Pre true s' /\ incb s' = false).
+  { intros rc H1 H2. destruct (handle_connack_N rc id s HP Es Hi H1 H2) as (A1 & A2 & A3).
+    unfold handle_connack in *. cbn [fst] in *.
+    destruct (rc =? 0) eqn:E0.
+    - cbn [after_read fst]. auto.
+    - assert (rc <> 0) by lia. apply after_read_N with (id := id); auto. pose proof (connack_err_pos rc). lia. }
+  destruct i; cbn [fst]; auto.
+  - (* CONNACK *)
+    cbn [accepting refusing] in *.
+    destruct ((proto s =? 4) && (rc =? 1)) eqn:Ed; [apply downgrade_N; assumption|].
+    apply Hack.
+    + intros ->. apply He. reflexivity.
+    + intros X. apply Hc. rewrite ?Ed. cbn [negb]. rewrite andb_true_r. apply negb_true_iff. lia.
+  - (* CONNACK refusing the protocol version *)
+    cbn [refusing] in *. destruct (proto s =? 4) eqn:Ep; [apply downgrade_N; assumption|].
+    apply Hack; [intros; lia|]. intros _. apply Hc. reflexivity.
+  - (* DISCONNECT from the broker *)
+    destruct (proto s =? 5).
+    + unfold handle_server_disconnect.
+      destruct (close_lost RServerDisc rc true id s HP Es Hi eq_refl ltac:(discriminate)) as (A1 & A2).
+      destruct (lost_tail nested rc true (sock_close c nested RServerDisc s)). exact (conj A1 A2).
+    + apply after_read_N with (id := id); auto. unfold E_PROTOCOL. lia.
+  - apply after_read_N with (id := id); auto. unfold E_PROTOCOL. lia.
+  - apply after_read_N with (id := id); auto. unfold E_CONN_LOST. lia.
+  - apply after_read_N with (id := id); auto. unfold E_CONN_LOST. lia.
+  - (* a packet that is answered *)
+    destruct (packet_queue_N KOther s) as (A1 & A2 & _ & A4).
+    + destruct HP as (X1 & X2 & X3). split; [|split; [exact X2|exact X3]].
+      rewrite (KS_frame _ _ s (set_outq (outq s ++ [mkQ KOther false]) s)) by reflexivity.
+      apply V_append; [exact X1|reflexivity|discriminate].
+    + congruence.
+    + destruct (packet_queue c nested KOther s) as [s1 rc]. cbn [fst snd] in *.
+      rewrite (A4 Hrc0). rewrite after_read_rc0. cbn [fst]. split; [exact A1|congruence].
+  - split; [|exact Hi]. eapply Pre_frame; [| | | | | |exact HP]; reflexivity.
+Qed.
+End Read.
+
+Lemma check_keepalive_N m s : Pre true s -> incb s = false ->
+  let s' := check_keepalive c nested m s in Pre true s' /\ incb s' = false.
+Proof.
+  intros HP Hi. unfold check_keepalive. destruct m; auto.
+  destruct (sock s) as [id|] eqn:Es; auto.
+  destruct (is_connected s && negb (ping s)); [|apply keepalive_close_N with (id := id); assumption].
+  destruct (packet_queue_N KPingreq s) as (A1 & A2 & _ & _).
+  - destruct HP as (X1 & X2 & X3). split; [|split; [exact X2|exact X3]].
+    rewrite (KS_frame _ _ s (set_outq (outq s ++ [mkQ KPingreq false]) s)) by reflexivity.
+    apply V_append; [exact X1|reflexivity|discriminate].
+  - congruence.
+  - destruct (packet_queue c nested KPingreq s) as [s1 rc]. cbn [fst] in *.
+    destruct (rc =? 0); [|split; [exact A1|congruence]].
+    split; [|ssimpl; congruence]. eapply Pre_frame; [| | | | | |exact A1]; reflexivity.
+Qed.
+
+Lemma loop_misc_N m s : Pre true s -> incb s = false ->
+  let s' := fst (loop_misc c nested m s) in Pre true s' /\ incb s' = false.
+Proof.
+  intros HP Hi. unfold loop_misc. destruct (sock s); [|cbn [fst]; auto].
+  destruct (check_keepalive_N m s HP Hi) as (A1 & A2).
+  destruct (sock (check_keepalive c nested m s)) as [id|] eqn:Es; [|cbn [fst]; auto].
+  destruct m; cbn [fst]; auto.
+  destruct (ping (check_keepalive c nested MPingDue s)); cbn [fst]; auto.
+  apply keepalive_close_N with (id := id); assumption.
+Qed.
+
+Lemma api_connect_N ok s : Pre true s ->
+  let r := api_connect c nested ok s in Pre true (fst r) /\ incb (fst r) = incb s.
+Proof.
+  intros HP. unfold api_connect.
+  set (s0 := emit (Call CConnect) s).
+  assert (HP0 : Pre true s0) by (apply Pre_emit; [reflexivity|exact HP]).
+  destruct HP0 as (HV & HS & HF).
+  assert (C2 : let s2 := set_cs CsConnectAsync (sock_close c nested RReplaced s0) in
+               Pre true s2 /\ incb s2 = incb s).
+  { destruct (sock s0) as [id|] eqn:Es.
+    - destruct (sock_close_char RReplaced id s0 Es HS) as (A1 & A2 & A3 & A4 & A5 & A6 & A7 & A8 & A9 & A10 & A11).
+      split; [|ssimpl; rewrite A5; reflexivity].
+      split; [|split; [ssimpl; exact A11|unfold nofail in *; ssimpl; rewrite A6; exact HF]].
+      rewrite (KS_frame _ _ (sock_close c nested RReplaced s0) (set_cs CsConnectAsync (sock_close c nested RReplaced s0))) by reflexivity.
+      rewrite A1. eapply V_end_replaced; [exact HV|exact Es|ssimpl; exact A2|reflexivity].
+    - unfold sock_close. rewrite Es. split; [|reflexivity].
+      split; [|split; [exact HS|exact HF]].
+      rewrite (KS_frame _ _ s0 (set_cs CsConnectAsync s0)) by reflexivity.
+      destruct HV as [ok1 ok2 ok3 cur1 cur2 cur3 conn owed credit disc qdisc wire new].
+      apply V_nosock; try assumption; try reflexivity; try congruence. }
+  destruct C2 as (P2 & I2).
+  destruct (reconnect_body_N ok _ P2) as (A1 & A2 & _ & _).
+  split; [exact A1|congruence].
+Qed.
+
 End C10.
+
+(* ---- nesting depth ---- *)
+Lemma nested_at_N c k0 nf : forall d sc s, NW c s -> Pre k0 nf true s ->
+  Pre k0 nf true (nested_at c d sc s) /\ incb (nested_at c d sc s) = incb s /\ Rel s (nested_at c d sc s).
+Proof.
+  induction d as [|d IH]; intros sc s Hnw HP; cbn [nested_at].
+  - split; [apply Pre_emit; [reflexivity|exact HP]|]. split; [reflexivity|].
+    intros X. left. split; [exact X|reflexivity].
+  - apply exec_script_N; try assumption.
+    + intros sc' s' A B D. apply nested_at_quiet; assumption.
+    + intros sc' s' A B. apply nested_at_teardown_ps; assumption.
+Qed.
+
+Section Top.
+Variable c : cfg.
+Variable k0 : k10.
+Variable d : nat.
+Notation nst := (nested_at c d).
+Let Hn nf := nested_at_N c k0 nf d.
+Let Hq := fun sc s (A : NW c s) B D => nested_at_quiet c d sc s A B D.
+Let Ht := fun sc s A B => nested_at_teardown_ps c d sc s A B.
+
+Lemma run_top_N o s : c10_hyp c s o = true ->
+  let nf := negb (c_ext c) && is_read (o_call o) in
+  Pre k0 nf true s -> incb s = false -> scr s = o_scr o ->
+  let s' := run_top c nst (o_call o) s in Pre k0 nf true s' /\ incb s' = false.
+Proof.
+  intros Hh nf HP Hi Hscr. unfold c10_hyp in Hh. repeat (apply andb_true_iff in Hh as [Hh ?]).
+  rename H into HE, H0 into HF, H1 into HC.
+  destruct (o_call o) as [ok|ok| | | |i| |m] eqn:Eo; cbn [run_top].
+  - destruct (api_connect_N c k0 nf nst (Hn nf) Hq Ht ok s HP) as (A1 & A2).
+    destruct (api_connect c nst ok s) as [s1 [rc|]]; cbn [ret_of fst] in *; (split; [|ssimpl; congruence]);
+      [apply Pre_emit; [reflexivity|exact A1]|exact A1].
+  - destruct (api_reconnect_N c k0 nf nst (Hn nf) Hq Ht ok s HP) as (A1 & A2 & _).
+    destruct (api_reconnect c nst ok s) as [s1 [rc|]]; cbn [ret_of fst] in *; (split; [|ssimpl; congruence]);
+      [apply Pre_emit; [reflexivity|exact A1]|exact A1].
+  - destruct (api_disconnect_N c k0 nf nst (Hn nf) Hq Ht s HP) as (A1 & A2 & _).
+    destruct (api_disconnect c nst s) as [s1 rc]. cbn [fst] in *. split; [|ssimpl; congruence].
+    apply Pre_emit; [reflexivity|exact A1].
+  - destruct (api_send_N c k0 nf nst (Hn nf) Hq Ht CPublish KPublish0 s HP eq_refl eq_refl eq_refl) as (A1 & A2 & _).
+    destruct (api_send c nst CPublish KPublish0 s) as [s1 rc]. cbn [fst] in *. split; [|ssimpl; congruence].
+    apply Pre_emit; [reflexivity|exact A1].
+  - destruct (api_send_N c k0 nf nst (Hn nf) Hq Ht CSubscribe KSubscribe s HP eq_refl eq_refl eq_refl) as (A1 & A2 & _).
+    destruct (api_send c nst CSubscribe KSubscribe s) as [s1 rc]. cbn [fst] in *. split; [|ssimpl; congruence].
+    apply Pre_emit; [reflexivity|exact A1].
+  - (* loop_read *)
+    assert (Hrc0 : c_ext c = true \/ nf = true).
+    { unfold nf. destruct (c_ext c); [left; reflexivity|right; reflexivity]. }
+    destruct (loop_read_N c k0 nf nst (Hn nf) Hq Ht Hrc0 i (emit (Call CLoopRead) s)) as (A1 & A2).
+    + apply Pre_emit; [reflexivity|exact HP].
+    + exact Hi.
+    + intros X. unfold excl_E in HE. rewrite Eo, X in HE. cbn [andb] in HE. apply negb_true_iff in HE.
+      unfold disc_state in *. ssimpl. exact HE.
+    + intros X. unfold excl_C in HC. rewrite Eo in HC.
+      assert (Y : refusing s (TLoopRead i) = true) by exact X. rewrite Y in HC. cbn [negb orb] in HC.
+      (* the scripts of this operation are those loaded in the state *)
+      ssimpl. rewrite Hscr. exact HC.
+    + destruct (loop_read c nst i (emit (Call CLoopRead) s)) as [s1 [rc|]]; cbn [ret_of fst] in *; (split; [|ssimpl; congruence]);
+        [apply Pre_emit; [reflexivity|exact A1]|exact A1].
+  - destruct (loop_write_N c k0 nf nst (Hn nf) Hq Ht (emit (Call CLoopWrite) s)) as (A1 & A2 & _);
+      [apply Pre_emit; [reflexivity|exact HP]|exact Hi|].
+    destruct (loop_write c nst (emit (Call CLoopWrite) s)) as [s1 rc]. cbn [fst] in *. split; [|ssimpl; congruence].
+    apply Pre_emit; [reflexivity|exact A1].
+  - destruct (loop_misc_N c k0 nf nst (Hn nf) Hq Ht m (emit (Call CLoopMisc) s)) as (A1 & A2);
+      [apply Pre_emit; [reflexivity|exact HP]|exact Hi|].
+    destruct (loop_misc c nst m (emit (Call CLoopMisc) s)) as [s1 rc]. cbn [fst] in *. split; [|ssimpl; congruence].
+    apply Pre_emit; [reflexivity|exact A1].
+Qed.
+End Top.
+
+(* ---- one operation ---- *)
+Definition Top10 (s : st) (k : k10) : Prop := V true s k /\ incb s = false.
+
+Lemma Top10_ok s k : Top10 s k -> k10_okb k = true.
+Proof.
+  intros [HV _]. destruct HV as [ok1 ok2 ok3 cur1 cur2 cur3 conn owed credit disc qdisc wire new].
+  unfold k10_okb. rewrite ok1, ok2, ok3. reflexivity.
+Qed.
+
+Lemma scr_ok_of o : excl_D o = true -> excl_G o = true -> excl_R o = true -> scr_ok (o_scr o) = true.
+Proof.
+  unfold excl_D, excl_G, excl_R, scr_ok. intros A B C0.
+  apply andb_true_iff in C0 as [C0 C3]. apply andb_true_iff in C0 as [C1 C2].
+  rewrite A, B, C1, C2, C3. reflexivity.
+Qed.
+
+Lemma Top10_step c s k o : Top10 s k -> c10_hyp c s o = true ->
+  Top10 (fst (step c s o)) (k10_fin (fold_left k10_ev (snd (step c s o)) k)).
+Proof.
+  intros [HV Hi] Hh. unfold step.
+  set (s0 := set_incb false (set_sched (o_sched o) (set_scr (o_scr o)
+               (mkSt (cs s) (sock s) (regw s) (outq s) (ping s) (incb s) (proto s) (nsock s) (sched s) (scr s) [])))).
+  set (nf := negb (c_ext c) && is_read (o_call o)).
+  assert (Hh0 : c10_hyp c s0 o = true) by exact Hh.
+  pose proof Hh as Hh'. unfold c10_hyp in Hh'. repeat (apply andb_true_iff in Hh' as [Hh' ?]).
+  assert (HP0 : Pre k nf true s0).
+  { split; [|split].
+    - unfold KS, s0. cbn. apply V_frame with (s := s); try reflexivity. exact HV.
+    - apply scr_ok_of; assumption.
+    - unfold nofail, nf, s0. ssimpl. intros X. apply andb_true_iff in X as [X1 X2]. apply negb_true_iff in X1.
+      unfold excl_F in H0. rewrite X1, X2 in H0. cbn in H0. apply negb_true_iff in H0. exact H0. }
+  destruct (run_top_N c k (nscripts (o_scr o)) o s0 Hh0 HP0 eq_refl eq_refl) as (A1 & A2).
+  set (s1 := run_top c (nested_at c (nscripts (o_scr o))) (o_call o) s0) in *.
+  cbn [fst snd]. rewrite fold_left_rev_KS.
+  destruct A1 as (V1 & _ & _).
+  split; [|ssimpl; exact A2].
+  unfold obs. rewrite KS_emit.
+  pose proof (V_obs true WEnd s1 (KS k10_ev k s1) (want_write s1) (regw s1) V1) as V2.
+  apply V_frame with (s := s1); try reflexivity.
+  destruct V2 as [ok1 ok2 ok3 cur1 cur2 cur3 conn owed credit disc qdisc wire new].
+  unfold k10_fin. constructor; cbn [b1 b2 b3 k2_fin k2_ok k2_cur k2_disc k2_owed k2_credit]; try assumption.
+  rewrite ok2, owed, credit. reflexivity.
+Qed.
+
+Lemma Top10_init c : Top10 (init c) k10_init.
+Proof.
+  split; [|reflexivity]. apply V_nosock; try reflexivity. intros; discriminate.
+Qed.
+
+Lemma c10_all c ops : c10_ops_ok c ops = true ->
+  k10_okb (run_checker k10_ev k10_fin k10_init (optrace c ops)) = true.
+Proof.
+  intros Hops. unfold optrace.
+  apply run_checker_inv with (hyp := c10_hyp c) (Top := Top10).
+  - apply Top10_ok.
+  - intros s k o HT Hh. apply Top10_step; assumption.
+  - apply Top10_init.
+  - exact Hops.
+Qed.
+
+Theorem c10_connected_proved : C10_connected_partial.
+Proof.
+  intros c ops _ Hops. pose proof (c10_all c ops Hops) as H. rewrite k10_run in H.
+  unfold k10_okb in H. cbn [b1 b2 b3] in H. apply andb_true_iff in H as [H _]. apply andb_true_iff in H as [H _].
+  exact H.
+Qed.
+
+Theorem c10_one_disconnect_proved : C10_one_disconnect_partial.
+Proof.
+  intros c ops _ Hops. pose proof (c10_all c ops Hops) as H. rewrite k10_run in H.
+  unfold k10_okb in H. cbn [b1 b2 b3] in H. apply andb_true_iff in H as [H _]. apply andb_true_iff in H as [_ H].
+  exact H.
+Qed.
+
+Theorem c10_wire_proved : C10_wire_partial.
+Proof.
+  intros c ops _ Hops. pose proof (c10_all c ops Hops) as H. rewrite k10_run in H.
+  unfold k10_okb in H. cbn [b1 b2 b3] in H. apply andb_true_iff in H as [_ H].
+  exact H.
+Qed.
+
+Print Assumptions c10_connected_proved.
+Print Assumptions c10_one_disconnect_proved.
+Print Assumptions c10_wire_proved.
